@@ -694,10 +694,38 @@ class Gen:
 
     def traj_arg(self, scope):
         # mostly literals: constraints whose arguments single actions can switch on and off
+        w = getattr(self, "_written", None)
+        if w and self.b(0.5):
+            # a ground atom some action instance writes: the constraint's status changes along plans
+            a = self.pick(w)
+            return ["not", a] if (self.p.negation and self.b(0.3)) else a
         if self.b(0.6):
             a = self.bool_atom(scope, 0)
             return ["not", a] if (self.p.negation and self.b(0.3)) else a
         return self.bool_expr(scope, 1)
+
+    def _written_atoms(self, actions):
+        """ground Boolean atoms that some instance of some action writes (parameters instantiated by objects of their type)"""
+        btypes = {f["name"] for f in self.fluents if f["type"] == "bool"}
+        out = []
+        for a in actions:
+            ptypes = dict((n, t) for n, t in a["params"])
+            for e in a["eff"]:
+                fl = e["fl"]
+                if fl[1] not in btypes:
+                    continue
+                args = []
+                for x in fl[2:]:
+                    if x[0] == "obj":
+                        args.append(x)
+                    elif x[0] == "par" and ptypes.get(x[1], [None])[0] == "user" and self.objs_of(ptypes[x[1]][1]):
+                        args.append(["obj", self.objs_of(ptypes[x[1]][1])[0 if len(out) % 2 else -1]])
+                    else:
+                        args = None
+                        break
+                if args is not None and ["fl", fl[1]] + args not in out:
+                    out.append(["fl", fl[1]] + args)
+        return out
 
     def gen_traj(self, scope):
         k = self.pick(["always", "sometime", "amo", "sb", "sa"])
@@ -729,6 +757,7 @@ class Gen:
                         traj.append(["always", ["not", atom] if self.b(0.5) else atom])
                         break
         if self.p.traj and self.b(0.7):
+            self._written = self._written_atoms(actions)
             for _ in range(self.i(1, 2)):
                 traj.append(self.gen_traj(top))
         return {
